@@ -537,6 +537,7 @@ def _argsort(ex, st, args, kwargs, node):
     st.assume(z3.ForAll([j], z3.Implies(z3.And(0 <= j, j < n), z3.And(0 <= qf(j), qf(j) < n, pf(qf(j)) == j)), patterns=[qf(j)]))
     st.assume(z3.ForAll([i, j], z3.Implies(z3.And(0 <= i, i < j, j < n), a.elem((pf(i),)) <= a.elem((pf(j),))),
                         patterns=[z3.MultiPattern(pf(i), pf(j))]))
+    c.last_perm = (pf, qf)          # exposed to contracts as witnesses (the permutation and its inverse)
     return st.alloc(c, Arr((a.shape[0],), lambda ix, pf=pf: pf(to_int(ix[0])), 'int'))
 
 
